@@ -347,7 +347,21 @@ func c05Case(c *Ctx, r gen.R, mt msgType, zero bool, caseNo int64, zone, phase s
 		canon(w.Elem(), m)
 		return m, nil
 	}
-	after, derr := decode(enc)
+	// every fourth case: a damaged copy of the message (a non-decimal nibble somewhere inside a field, a wrong length) is decoded
+	// first, by this goroutine - whatever that leaves behind must not show in the decode that follows
+	if r.Pick(4) == 0 && mt.layout != nil && len(mt.layout.Fields) > 0 {
+		bad := append([]byte{}, enc...)
+		f := mt.layout.Fields[r.Pick(len(mt.layout.Fields))]
+		if f.Kind.Size() > 1 {
+			bad[f.Offset+1+r.Pick(f.Kind.Size()-1)] = byte(0xa0 + r.Pick(0x5f))
+		} else {
+			bad[f.Offset] = 0xfa
+		}
+		decode(bad)
+		decode(bad[:40])
+	}
+	buf := append([]byte{}, enc...)
+	after, derr := decode(buf)
 	if derr != nil {
 		c.Res.Violate("C05:"+mt.t.Name()+":decode", fmt.Sprintf("Unmarshal(Marshal(%s)) failed: %v", mt.t.Name(), derr), map[string]any{"zone": zone, "phase": phase, "values": vals.String(), "bytes": wk.Hex(enc)}, caseNo)
 		return
@@ -367,6 +381,33 @@ func c05Case(c *Ctx, r gen.R, mt msgType, zero bool, caseNo int64, zone, phase s
 	}
 	if bad != "" {
 		return
+	}
+	// the decoded value shares no memory with the buffer it was decoded from
+	{
+		w := reflect.New(mt.t)
+		b2 := append([]byte{}, enc...)
+		var aerr error
+		func() {
+			defer func() {
+				if p := recover(); p != nil {
+					aerr = fmt.Errorf("panic: %v", p)
+				}
+			}()
+			aerr = codec.Unmarshal(b2, w.Interface())
+		}()
+		if aerr == nil {
+			for i := range b2 {
+				b2[i] ^= 0x5a
+			}
+			m := map[string]string{}
+			canon(w.Elem(), m)
+			for k, b := range before {
+				if m[k] != b {
+					c.Res.Violate("C05:"+mt.t.Name()+":aliases-input:"+k, fmt.Sprintf("%s.%s changed from %s to %s when the buffer it was decoded from was overwritten", mt.t.Name(), k, b, m[k]), map[string]any{"zone": zone, "phase": phase, "bytes": wk.Hex(enc)}, caseNo)
+					break
+				}
+			}
+		}
 	}
 	if caseNo%6007 == 0 {
 		c.Res.Sample(map[string]any{"type": mt.t.Name(), "zone": zone, "bytes": wk.Hex(enc), "decoded": fmt.Sprint(after)})
